@@ -1,9 +1,564 @@
 /-
-  QEModel.C08 — executable model for property C08 (stub; to be filled in).
+  QEModel.C08 — quadrature rules.
+  Mirrors: quantecon/quad.py
+    _qnwtrap1 (983-993), _qnwsimp1 (934-945), numba's np.linspace (scalar path),
+    _make_multidim_func (666-691), qnwunif (467-470), qnwequi weights (180-182),
+    quadrect (550), qnwnorm's affine map (292-302),
+    the three-term recurrences and Newton iterations of _qnwlege1 (779-817),
+    _qnwnorm1 (850-896), _qnwgamma1 (1158-1201), _qnwbeta1 (1037-1117);
+  quantecon/_ce_util.py  ckron (41), gridmake (71-82), _gridmake2 (115-123).
+  Parameters (not modelled): cos / sqrt / pow / lgamma / exp (the Newton starting
+  values and the normalising constants are inputs of the model), la.cholesky, la.sqrtm.
 -/
 import QEModel.Base
 namespace QE.C08
+open QE
 
-def handle (_toks : List String) : String := "bad-op"
+/-- `Float` has no `NatCast` in core; `Float.ofNat` is exact below 2^53. -/
+local instance : NatCast Float := ⟨Float.ofNat⟩
+
+section arith
+variable {α : Type} [Zero α] [One α] [Add α] [Sub α] [Mul α] [Div α] [Neg α] [NatCast α]
+  [LT α] [LE α] [DecidableLT α] [DecidableLE α] [BEq α]
+
+/-! ### np.linspace inside an `@jit` function (numba/np/arrayobj.py `numpy_linspace`) -/
+
+/-- `arr[i] = start + i*step` with `step = (stop-start)/(num-1)`; `arr[-1] = stop` when
+    `num > 1`; `arr[0] = start` when `num = 1`. -/
+def linspace (start stop : α) (n : Nat) : List α :=
+  (List.range n).map fun (i : Nat) =>
+    if 1 < n then
+      if i + 1 = n then stop
+      else start + (i : α) * ((stop - start) / ((n - 1 : Nat) : α))
+    else start
+
+/-- `0.5` -/
+def half : α := 1 / ((2 : Nat) : α)
+
+/-! ### _qnwtrap1 -/
+
+/-- `_qnwtrap1(n, a, b)`; `none` = `ValueError("n must be at least one")`.
+    (`n = 1` reads `nodes[1]` out of bounds in the code; the theorems assume `2 ≤ n`.) -/
+def trapRule (n : Nat) (a b : α) : Option (List α × List α) :=
+  if n < 1 then none
+  else
+    let nodes := linspace a b n
+    let dx := nodes.getD 1 0 - nodes.getD 0 0
+    let w0 := List.replicate n (dx * 1)                    -- dx * np.ones(n)
+    let w1 := w0.set 0 (w0.getD 0 0 * half)                -- weights[0] *= 0.5
+    let w2 := w1.set (n - 1) (w1.getD (n - 1) 0 * half)    -- weights[-1] *= 0.5
+    some (nodes, w2)
+
+/-! ### np.kron for vectors, ckron -/
+
+/-- `np.kron(a, b)` of two vectors: `out[i*len(b)+j] = a[i]*b[j]` -/
+def kron (a b : List α) : List α := a.flatMap fun x => b.map fun y => x * y
+
+/-- `ckron(*arrays) = reduce(np.kron, arrays)`; `none` = `TypeError` (reduce of an empty
+    sequence). -/
+def ckron : List (List α) → Option (List α)
+  | [] => none
+  | a :: rest => some (rest.foldl kron a)
+
+/-! ### _qnwsimp1 -/
+
+/-- the `n` the routine works with: an even `n` is increased by one -/
+def simpN (n : Nat) : Nat := if n % 2 = 0 then n + 1 else n
+
+/-- `np.kron(np.ones((n+1)//2), [2.0, 4.0])[:n]` with `w[0] = w[-1] = 1` -/
+def simpPattern (n : Nat) : List α :=
+  let pat := (kron (List.replicate ((n + 1) / 2) (1 : α)) [((2 : Nat) : α), ((4 : Nat) : α)]).take n
+  (pat.set 0 1).set (n - 1) 1
+
+/-- `_qnwsimp1(n, a, b)` (`n ≤ 1` reads `nodes[1]` out of bounds in the code; the theorems
+    assume `2 ≤ n`, i.e. at least three nodes after the rounding-up). -/
+def simpRule (n0 : Nat) (a b : α) : List α × List α :=
+  let n := simpN n0
+  let nodes := linspace a b n
+  let dx := nodes.getD 1 0 - nodes.getD 0 0
+  (nodes, (simpPattern n).map fun c => (dx / ((3 : Nat) : α)) * c)
+
+end arith
+
+/-! ### gridmake (no arithmetic: any element type) -/
+
+section grid
+variable {β : Type}
+
+/-- `np.tile(x, k)` (for a matrix given by its rows: `np.tile(x, (k, 1))`) -/
+def tile (x : List β) (k : Nat) : List β := (List.replicate k x).flatten
+
+/-- `np.repeat(x, k)` -/
+def repeatEach (x : List β) (k : Nat) : List β := x.flatMap fun v => List.replicate k v
+
+/-- `_gridmake2(x1, x2)` with `x1` given by its rows (a 1-d `x1` = rows of length one):
+    `column_stack([tile(x1, (len x2, 1)), repeat(x2, len x1)])` -/
+def gridmake2 (X : List (List β)) (x2 : List β) : List (List β) :=
+  List.zipWith (fun r v => r ++ [v]) (tile X x2.length) (repeatEach x2 X.length)
+
+/-- a 1-d array as a one-column matrix -/
+def col (x : List β) : List (List β) := x.map fun v => [v]
+
+/-- `foldl _gridmake2` over the arrays, starting from the first one as a column -/
+def gridRows : List (List β) → List (List β)
+  | [] => []
+  | x :: rest => rest.foldl gridmake2 (col x)
+
+/-- `gridmake(*arrays)` for 1-d arrays; `none` = the `IndexError` of `arrays[1]` /
+    `arrays[0]` when fewer than two arrays are given. -/
+def gridmake (arrays : List (List β)) : Option (List (List β)) :=
+  if arrays.length < 2 then none else some (gridRows arrays)
+
+end grid
+
+section arith2
+variable {α : Type} [Zero α] [One α] [Add α] [Sub α] [Mul α] [Div α] [Neg α] [NatCast α]
+  [LT α] [LE α] [DecidableLT α] [DecidableLE α] [BEq α]
+
+/-- weights of the tensor rule: `ckron(*weights[::-1])` as a total function (`[]` for no rule) -/
+def ckronRev (ws : List (List α)) : List α := (ckron ws.reverse).getD []
+
+/-- the `d ≥ 2` path of `_make_multidim_func`: nodes `gridmake(*nodes)`, weights
+    `ckron(*weights[::-1])` -/
+def tensorRule (nodes weights : List (List α)) : Option (List (List α) × List α) :=
+  match gridmake nodes, ckron weights.reverse with
+  | some g, some w => some (g, w)
+  | _, _ => none
+
+/-- `a·b` for vectors (exact arithmetic; the BLAS summation order is not modelled) -/
+def dot (a b : List α) : α := (List.zipWith (fun x y => x * y) a b).foldl (fun s t => s + t) 0
+
+/-- `quadrect`: `weights.dot(f(nodes))` for 1-d nodes -/
+def quadSum (weights nodes : List α) (f : α → α) : α := dot weights (nodes.map f)
+
+/-- `quadrect` for d-dimensional nodes (rows) -/
+def quadSumRows (weights : List α) (nodes : List (List α)) (f : List α → α) : α :=
+  dot weights (nodes.map f)
+
+/-- `np.prod(v)` -/
+def prodL (v : List α) : α := v.foldl (fun s t => s * t) 1
+
+/-- NumPy broadcasting of a 1-d operand to length `d`: a length-1 operand is repeated
+    (any other length is left alone; a mismatch is a `ValueError` in the code and outside the model) -/
+def broadcastTo (d : Nat) (v : List α) : List α :=
+  if v.length = 1 then List.replicate d (v.getD 0 0) else v
+
+/-- `np.broadcast_to(np.subtract(b, a), (d,))`: the side lengths of the box, `a` and `b` scalars
+    (length-1 lists) or vectors -/
+def boxSides (d : Nat) (a b : List α) : List α :=
+  let k := max a.length b.length
+  broadcastTo d (List.zipWith (fun y x => y - x) (broadcastTo k b) (broadcastTo k a))
+
+/-- `qnwunif`: `weights / np.prod(np.broadcast_to(b - a, (d,)))` with
+    `d = max(size n, size a, size b)`; `dn = size n` -/
+def unifWeights (w a b : List α) (dn : Nat) : List α :=
+  let d := max dn (max a.length b.length)
+  let vol := prodL (boxSides d a b)
+  w.map fun t => t / vol
+
+/-- `qnwequi`: `(np.prod(r) / n) * np.ones(n)` -/
+def equiWeights (n : Nat) (a b : List α) : List α :=
+  let vol := prodL (List.zipWith (fun y x => y - x) b a)
+  List.replicate n (vol / (n : α) * 1)
+
+/-! ### qnwnorm: affine image of the standard nodes -/
+
+/-- column `j` of a matrix given by rows -/
+def colOf (L : List (List α)) (j : Nat) : List α := L.map fun r => r.getD j 0
+
+/-- one row of `nodes.dot(L) + mu` -/
+def affineRow (L : List (List α)) (mu : List α) (z : List α) : List α :=
+  (List.range mu.length).map fun j => dot z (colOf L j) + mu.getD j 0
+
+/-- `nodes.dot(new_sig2) + mu` (d > 1) -/
+def affineMap (L : List (List α)) (mu : List α) (Z : List (List α)) : List (List α) :=
+  Z.map (affineRow L mu)
+
+/-- `nodes * new_sig2 + mu` (d = 1) -/
+def affine1 (s mu : α) (z : List α) : List α := z.map fun t => t * s + mu
+
+/-! ### the recurrences of the Gauss rules and their Newton iterations -/
+
+def absA (x : α) : α := if x < 0 then -x else x
+
+/-- Legendre: `for j in 1..n: p3 = p2; p2 = p1; p1 = ((2j-1) z p2 - (j-1) p3)/j`;
+    state `(p1, p2)`, `rem` iterations left, next index `j`. -/
+def legeLoop (z : α) : Nat → Nat → α → α → α × α
+  | 0, _, p1, p2 => (p1, p2)
+  | rem + 1, j, p1, p2 =>
+    legeLoop z rem (j + 1) ((((2 * j - 1 : Nat) : α) * z * p1 - ((j - 1 : Nat) : α) * p2) / (j : α)) p1
+
+/-- `(P_n(z), P_{n-1}(z))` as the code computes them -/
+def legeP (n : Nat) (z : α) : α × α := legeLoop z n 1 1 0
+
+/-- one Newton update of `_qnwlege1` at one node: returns `(z_new, pp)` -/
+def legeStep (n : Nat) (z : α) : α × α :=
+  let (p1, p2) := legeP n z
+  let pp := (n : α) * (z * p1 - p2) / (z * z - 1)
+  (z - p1 / pp, pp)
+
+/-- the vectorised Newton loop `for its in range(maxit)` with the `np.all(|z - z1| < tol)`
+    exit; returns the final `(z, pp)` per node and `its`. -/
+def legeNewton (n : Nat) (tol : α) : Nat → Nat → List α → List (α × α) × Nat
+  | 0, its, zs => (zs.map fun z => (z, 0), its)
+  | fuel + 1, its, zs =>
+    let st := zs.map (legeStep n)
+    if (List.zipWith (fun z1 s => decide (absA (s.1 - z1) < tol)) zs st).all id ∨ fuel = 0 then (st, its)
+    else legeNewton n tol fuel (its + 1) (st.map Prod.fst)
+
+/-- `_qnwlege1(n, a, b)` from the starting values `z0` (`cos(pi (i+0.75)/(n+0.5))`, `i < m`);
+    `none` = `ValueError("Maximum iterations")` (raised when the loop ends with `its = maxit-1`,
+    converged or not). -/
+def legeRule (n : Nat) (a b tol : α) (z0 : List α) : Option (List α × List α) :=
+  let xm := half * (b + a)
+  let xl := half * (b - a)
+  let (st, its) := legeNewton n tol 100 0 z0
+  if its = 99 then none
+  else
+    let m := z0.length
+    let nodeAt := fun (k : Nat) =>
+      if n - 1 - k < m then xm + xl * (st.getD (n - 1 - k) (0, 0)).1     -- nodes[-i-1] (written last)
+      else xm - xl * (st.getD k (0, 0)).1
+    let wAt := fun (k : Nat) =>
+      let s := if k < m then st.getD k (0, 0) else st.getD (n - 1 - k) (0, 0)
+      ((2 : Nat) : α) * xl / ((1 - s.1 * s.1) * s.2 * s.2)
+    some ((List.range n).map nodeAt, (List.range n).map wAt)
+
+/-- Hermite (orthonormal): `p1 = z*sqrt(2/j)*p2 - sqrt((j-1)/j)*p3`; the square roots are the
+    parameter `sq j = (sqrt(2/j), sqrt((j-1)/j))`. -/
+def hermLoop (sq : Nat → α × α) (z : α) : Nat → Nat → α → α → α × α
+  | 0, _, p1, p2 => (p1, p2)
+  | rem + 1, j, p1, p2 =>
+    hermLoop sq z rem (j + 1) (z * (sq j).1 * p1 - (sq j).2 * p2) p1
+
+/-- Laguerre: `p1 = ((2j-1+a-z) p2 - (j-1+a) p3)/j` -/
+def lagLoop (a z : α) : Nat → Nat → α → α → α × α
+  | 0, _, p1, p2 => (p1, p2)
+  | rem + 1, j, p1, p2 =>
+    lagLoop a z rem (j + 1)
+      (((((2 * j - 1 : Nat) : α) + a - z) * p1 - (((j - 1 : Nat) : α) + a) * p2) / (j : α)) p1
+
+/-- one Newton update of `_qnwgamma1`: `(z_new, pp, p2)` -/
+def lagStep (n : Nat) (a z : α) : α × α × α :=
+  let (p1, p2) := lagLoop a z n 1 1 0
+  let pp := ((n : α) * p1 - ((n : α) + a) * p2) / z
+  (z - p1 / pp, pp, p2)
+
+/-- `while abs(z - z1) > tol and its < maxit` of `_qnwgamma1`: returns `(z, pp, p2, its)` -/
+def lagNewton (n : Nat) (a tol : α) : Nat → Nat → α → α → α → α → α × α × α × Nat
+  | 0, its, z, _, pp, p2 => (z, pp, p2, its)
+  | fuel + 1, its, z, z1, pp, p2 =>
+    if tol < absA (z - z1) ∧ its < 25 then
+      let (zn, ppn, p2n) := lagStep n a z
+      lagNewton n a tol fuel (its + 1) zn z ppn p2n
+    else (z, pp, p2, its)
+
+/-- Jacobi: the `for j in range(2, n+1)` loop of `_qnwbeta1`; state `(p1, p2, temp)` -/
+def jacLoop (a b z : α) : Nat → Nat → α → α → α → α × α × α
+  | 0, _, p1, p2, temp => (p1, p2, temp)
+  | rem + 1, j, p1, p2, _ =>
+    let ab := a + b
+    let temp := ((2 * j : Nat) : α) + ab
+    let aa := ((2 * j : Nat) : α) * ((j : α) + ab) * (temp - ((2 : Nat) : α))
+    let bb := (temp - 1) * (a * a - b * b + temp * (temp - ((2 : Nat) : α)) * z)
+    let c := ((2 : Nat) : α) * (((j - 1 : Nat) : α) + a) * (((j - 1 : Nat) : α) + b) * temp
+    jacLoop a b z rem (j + 1) ((bb * p1 - c * p2) / aa) p1 temp
+
+/-- one Newton update of `_qnwbeta1`: `(z_new, pp, p2, temp)` (`a`, `b` already reduced by 1) -/
+def jacStep (n : Nat) (a b z : α) : α × α × α × α :=
+  let ab := a + b
+  let temp0 := ((2 : Nat) : α) + ab
+  let p10 := (a - b + temp0 * z) / ((2 : Nat) : α)
+  let (p1, p2, temp) := jacLoop a b z (n - 1) 2 p10 1 temp0
+  let pp := ((n : α) * (a - b - temp * z) * p1 + ((2 : Nat) : α) * ((n : α) + a) * ((n : α) + b) * p2)
+              / (temp * (1 - z * z))
+  (z - p1 / pp, pp, p2, temp)
+
+/-- the placement of the `m = ⌊(n+1)/2⌋` positive roots `zs` (largest first) and their `pp` in
+    `_qnwnorm1`: `nodes[n-1-i] = z; nodes[i] = -z` (the second assignment wins at the middle of an
+    odd `n`), `weights[i] = weights[n-1-i] = 2/(pp·pp)`, then `weights /= sqrt(pi)`,
+    `nodes *= sqrt(2)`. -/
+def hermAssemble (n : Nat) (zs pps : List α) (sqrtpi sqrt2 : α) : List α × List α :=
+  let m := zs.length
+  let nodeAt := fun (k : Nat) => if k < m then -(zs.getD k 0) else zs.getD (n - 1 - k) 0
+  let wAt := fun (k : Nat) =>
+    let pp := if k < m then pps.getD k 0 else pps.getD (n - 1 - k) 0
+    ((2 : Nat) : α) / (pp * pp) / sqrtpi
+  ((List.range n).map fun k => nodeAt k * sqrt2, (List.range n).map wAt)
+
+end arith2
+
+/-! ### line protocol -/
+
+def showPair {β : Type} (f : β → String) (p : List β × List β) : String :=
+  showList f p.1 ++ "|" ++ showList f p.2
+
+def kvFloat (toks : List String) (key : String) : Option Float := (kv toks key).bind parseFloat?
+
+/-- Float Newton drivers for the 1-node rules (gamma): starting value passed in. -/
+def lagNode (n : Nat) (a tol z0 : Float) : Float × Float × Float × Nat :=
+  lagNewton n a tol 30 0 z0 (-10000) 0 0
+
+/-- the starting value of node `i ≥ 2` of `_qnwgamma1` (Float only: decimal constants of the code) -/
+def lagStart (a z zprev : Float) (i : Nat) : Float :=
+  let j : Float := Float.ofNat (i - 1)
+  z + ((1 + 2.55 * j) / (1.9 * j) + 1.26 * j * a / (1 + 3.5 * j)) * (z - zprev) / (1 + 0.3 * a)
+
+/-- all nodes of `_qnwgamma1` (`a` already reduced by 1): state = nodes and weights so far
+    (in order), `rem` nodes left; `none` = `ValueError('Failure to converge')`. -/
+def lagRuleLoop (n : Nat) (a tol factor : Float) : Nat → List Float → List Float → Float →
+    Option (List Float × List Float)
+  | 0, nodes, weights, _ => some (nodes, weights)
+  | rem + 1, nodes, weights, z =>
+    let i := nodes.length
+    let z0 :=
+      if i = 0 then (1 + a) * (3 + 0.92 * a) / (1 + 2.4 * Float.ofNat n + 1.8 * a)
+      else if i = 1 then z + (15 + 6.25 * a) / (1 + 0.9 * a + 2.5 * Float.ofNat n)
+      else lagStart a z (nodes.getD (i - 2) 0) i
+    let (zf, pp, p2, its) := lagNode n a tol z0
+    if its = 25 then none
+    else lagRuleLoop n a tol factor rem (nodes ++ [zf]) (weights ++ [factor / (pp * Float.ofNat n * p2)]) zf
+
+/-- `_qnwgamma1(n, a+1, b, tol)` with the constant `factor` (lgamma / exp) supplied -/
+def lagRule (n : Nat) (a b tol factor : Float) : Option (List Float × List Float) :=
+  match lagRuleLoop n a tol factor n [] [] 0 with
+  | some (x, w) => some (x.map (fun t => t * b), w)
+  | none => none
+
+/-- `_qnwcheb1(n, a, b)` (Float; libm `cos`, plain left-to-right summation for the `@`) -/
+def chebRule (n : Nat) (a b : Float) : List Float × List Float :=
+  let pi : Float := 3.141592653589793
+  let nf := Float.ofNat n
+  let ls := linspace (0.5 : Float) (nf - 0.5) n
+  let nodes := ls.map fun t => (b + a) / 2 - (b - a) / 2 * Float.cos (pi / nf * t)
+  let t1 := (List.range n).map fun i => Float.ofNat (i + 1) - 0.5
+  let K := (n + 1) / 2
+  let t2 := (List.range K).map fun k => Float.ofNat (2 * k)
+  let t3 := (List.range K).map fun k =>
+    if k = 0 then 1.0 else -2.0 / (Float.ofNat (2 * k - 1) * Float.ofNat (2 * k + 1))
+  let weights := t1.map fun u =>
+    (List.zipWith (fun v c => (b - a) / nf * Float.cos (pi / nf * (u * v)) * c) t2 t3).foldl (fun s t => s + t) 0
+  (nodes, weights)
+
+/-- the Newton loop of `_qnwbeta1` at one node (Float; `a`, `b` already reduced by 1):
+    `while abs(z - z1) > 1e-10 and its < 25: …; if abs(z - z1) < 1e-12: break; its += 1`;
+    returns `(z, pp, p2, temp, its)`. -/
+def jacNewton (n : Nat) (a b : Float) : Nat → Nat → Float → Float → Float → Float → Float →
+    Float × Float × Float × Float × Nat
+  | 0, its, z, _, pp, p2, temp => (z, pp, p2, temp, its)
+  | fuel + 1, its, z, z1, pp, p2, temp =>
+    if absA (z - z1) > 1e-10 ∧ its < 25 then
+      let (zn, ppn, p2n, tempn) := jacStep n a b z
+      if absA (zn - z) < 1e-12 then (zn, ppn, p2n, tempn, its)
+      else jacNewton n a b fuel (its + 1) zn z ppn p2n tempn
+    else (z, pp, p2, temp, its)
+
+/-- the starting value of node `i` of `_qnwbeta1` (Float: decimal constants of the code);
+    `nodes` = the nodes found so far, `z` = the previous node -/
+def jacStart (n : Nat) (a b z : Float) (nodes : List Float) (i : Nat) : Float :=
+  let nf := Float.ofNat n
+  let n8 : Float := Float.ofInt ((n : Int) - 8)
+  let n4 : Float := Float.ofInt ((n : Int) - 4)
+  if i = 0 then
+    let an := a / nf
+    let bn := b / nf
+    let r1 := (1 + a) * (2.78 / Float.ofNat (4 + n * n) + 0.768 * an / nf)
+    let r2 := 1 + 1.48 * an + 0.96 * bn + 0.452 * an * an + 0.83 * an * bn
+    1 - r1 / r2
+  else if i = 1 then
+    let r1 := (4.1 + a) / ((1 + a) * (1 + 0.156 * a))
+    let r2 := 1 + 0.06 * n8 * (1 + 0.12 * a) / nf
+    let r3 := 1 + 0.012 * b * (1 + 0.25 * absA a) / nf
+    z - (1 - z) * r1 * r2 * r3
+  else if i = 2 then
+    let r1 := (1.67 + 0.28 * a) / (1 + 0.37 * a)
+    let r2 := 1 + 0.22 * n8 / nf
+    let r3 := 1 + 8 * b / ((6.28 + b) * nf * nf)
+    z - (nodes.getD 0 0 - z) * r1 * r2 * r3
+  else if i + 2 = n then
+    let r1 := (1 + 0.235 * b) / (0.766 + 0.119 * b)
+    let r2 := 1 / (1 + 0.639 * n4 / (1 + 0.71 * n4))
+    let r3 := 1 / (1 + 20 * a / ((7.5 + a) * nf * nf))
+    z + (z - nodes.getD (n - 4) 0) * r1 * r2 * r3
+  else if i + 1 = n then
+    let r1 := (1 + 0.37 * b) / (1.67 + 0.28 * b)
+    let r2 := 1 / (1 + 0.22 * n8 / nf)
+    let r3 := 1 / (1 + 8 * a / ((6.28 + a) * nf * nf))
+    z + (z - nodes.getD (n - 3) 0) * r1 * r2 * r3
+  else 3 * nodes.getD (i - 1) 0 - 3 * nodes.getD (i - 2) 0 + nodes.getD (i - 3) 0
+
+def jacRuleLoop (n : Nat) (a b : Float) : Nat → List Float → List Float → Float →
+    Option (List Float × List Float)
+  | 0, nodes, weights, _ => some (nodes, weights)
+  | rem + 1, nodes, weights, z =>
+    let i := nodes.length
+    let z0 := jacStart n a b z nodes i
+    let (zf, pp, p2, temp, its) := jacNewton n a b 30 0 z0 (-100) 0 0 0
+    if its = 25 then none
+    else jacRuleLoop n a b rem (nodes ++ [zf]) (weights ++ [temp / (pp * p2)]) zf
+
+/-- `_qnwbeta1(n, a+1, b+1)` with the two normalising constants (lgamma / exp) supplied:
+    `weights * c1 / c2`, `nodes = (1 - z)/2`; `none` = `ValueError("Max Iteration reached")` -/
+def jacRule (n : Nat) (a b c1 c2 : Float) : Option (List Float × List Float) :=
+  match jacRuleLoop n a b n [] [] 0 with
+  | some (x, w) => some (x.map (fun t => (1 - t) / 2), w.map (fun t => t * c1 / c2))
+  | none => none
+
+/-- the `while its < maxit` loop of `_qnwnorm1` at one node (Float): returns `(z, pp, its)` -/
+def hermNewton (n : Nat) (pim4 tol : Float) : Nat → Nat → Float → Float → Float × Float × Nat
+  | 0, its, z, pp => (z, pp, its)
+  | fuel + 1, its, z, _ =>
+    let sq : Nat → Float × Float := fun j =>
+      (Float.sqrt (2.0 / Float.ofNat j), Float.sqrt ((Float.ofNat j - 1.0) / Float.ofNat j))
+    let (p1, p2) := hermLoop sq z n 1 pim4 0
+    let pp := Float.sqrt (Float.ofNat (2 * n)) * p2
+    let zn := z - p1 / pp
+    if absA (zn - z) < tol then (zn, pp, its + 1) else hermNewton n pim4 tol fuel (its + 1) zn pp
+
+/-- `_qnwnorm1(n)` (Float): the positive roots found so far (largest first) and their `pp`;
+    `none` = `ValueError("Failed to converge")`. Constants `pim4 = 1/pi**0.25`, `sqrt(pi)` supplied. -/
+def hermRuleLoop (n : Nat) (pim4 tol : Float) : Nat → List Float → List Float → Float →
+    Option (List Float × List Float)
+  | 0, zs, pps, _ => some (zs, pps)
+  | rem + 1, zs, pps, z =>
+    let i := zs.length
+    let nf := Float.ofNat n
+    -- nodes[k] = -zs[k]
+    let z0 :=
+      if i = 0 then Float.sqrt (Float.ofNat (2 * n + 1)) - 1.85575 * Float.pow (Float.ofNat (2 * n + 1)) (-1 / 6.1)
+      else if i = 1 then z - 1.14 * Float.pow nf 0.426 / z
+      else if i = 2 then 1.86 * z + 0.86 * (-(zs.getD 0 0))
+      else if i = 3 then 1.91 * z + 0.91 * (-(zs.getD 1 0))
+      else 2 * z + (-(zs.getD (i - 2) 0))
+    let (zf, pp, its) := hermNewton n pim4 tol 100 0 z0 0
+    if its = 100 then none
+    else hermRuleLoop n pim4 tol rem (zs ++ [zf]) (pps ++ [pp]) zf
+
+def hermRule (n : Nat) (pim4 sqrtpi tol : Float) : Option (List Float × List Float) :=
+  let m := (n + 1) / 2
+  match hermRuleLoop n pim4 tol m [] [] 0 with
+  | none => none
+  | some (zs, pps) => some (hermAssemble n zs pps sqrtpi (Float.sqrt 2.0))
+
+def handle (toks : List String) : String :=
+  match toks with
+  | "trap" :: r =>
+    match kvNat r "n", kvRat r "a", kvRat r "b" with
+    | some n, some a, some b =>
+      match trapRule n a b with
+      | some p => showPair showRat p
+      | none => "ERR:ValueError"
+    | _, _, _ => "bad-op"
+  | "trapf" :: r =>
+    match kvNat r "n", kvFloat r "a", kvFloat r "b" with
+    | some n, some a, some b =>
+      match trapRule n a b with
+      | some p => showPair showFloatBits p
+      | none => "ERR:ValueError"
+    | _, _, _ => "bad-op"
+  | "simp" :: r =>
+    match kvNat r "n", kvRat r "a", kvRat r "b" with
+    | some n, some a, some b => showPair showRat (simpRule n a b)
+    | _, _, _ => "bad-op"
+  | "simpf" :: r =>
+    match kvNat r "n", kvFloat r "a", kvFloat r "b" with
+    | some n, some a, some b => showPair showFloatBits (simpRule n a b)
+    | _, _, _ => "bad-op"
+  | "gridmake" :: r =>
+    match kvRatMat r "arrs" with
+    | some arrs =>
+      match gridmake arrs with
+      | some g => showMat showRat g
+      | none => "ERR:IndexError"
+    | _ => "bad-op"
+  | "ckron" :: r =>
+    match kvRatMat r "arrs" with
+    | some arrs =>
+      match ckron arrs with
+      | some w => showList showRat w
+      | none => "ERR:TypeError"
+    | _ => "bad-op"
+  | "tensorf" :: r =>
+    match kvFloatMat r "nodes", kvFloatMat r "weights" with
+    | some nodes, some weights =>
+      match tensorRule nodes weights with
+      | some (g, w) => showMat showFloatBits g ++ "|" ++ showList showFloatBits w
+      | none => "ERR:IndexError"
+    | _, _ => "bad-op"
+  | "unifw" :: r =>
+    match kvFloats r "w", kvFloats r "a", kvFloats r "b", kvNat r "dn" with
+    | some w, some a, some b, some dn => showList showFloatBits (unifWeights w a b dn)
+    | _, _, _, _ => "bad-op"
+  | "equiw" :: r =>
+    match kvNat r "n", kvFloats r "a", kvFloats r "b" with
+    | some n, some a, some b => showList showFloatBits (equiWeights n a b)
+    | _, _, _ => "bad-op"
+  | "quad" :: r =>
+    match kvRats r "w", kvRats r "fx" with
+    | some w, some fx => showRat (dot w fx)
+    | _, _ => "bad-op"
+  | "affine" :: r =>
+    match kvRatMat r "L", kvRats r "mu", kvRatMat r "Z" with
+    | some L, some mu, some Z => showMat showRat (affineMap L mu Z)
+    | _, _, _ => "bad-op"
+  | "affine1" :: r =>
+    match kvRat r "s", kvRat r "mu", kvRats r "z" with
+    | some s, some mu, some z => showList showRat (affine1 s mu z)
+    | _, _, _ => "bad-op"
+  | "lege" :: r =>
+    match kvNat r "n", kvFloat r "a", kvFloat r "b", kvFloat r "tol", kvFloats r "z0" with
+    | some n, some a, some b, some tol, some z0 =>
+      match legeRule n a b tol z0 with
+      | some p => showPair showFloatBits p
+      | none => "ERR:ValueError"
+    | _, _, _, _, _ => "bad-op"
+  | "legep" :: r =>
+    match kvNat r "n", kvRat r "z" with
+    | some n, some z => let p := legeP n z; showRat p.1 ++ "|" ++ showRat p.2
+    | _, _ => "bad-op"
+  | "lagp" :: r =>
+    match kvNat r "n", kvRat r "a", kvRat r "z" with
+    | some n, some a, some z => let p := lagLoop a z n 1 1 0; showRat p.1 ++ "|" ++ showRat p.2
+    | _, _, _ => "bad-op"
+  | "jacp" :: r =>
+    match kvNat r "n", kvRat r "a", kvRat r "b", kvRat r "z" with
+    | some n, some a, some b, some z =>
+      let ab := a + b
+      let t0 : Rat := 2 + ab
+      let p := jacLoop a b z (n - 1) 2 ((a - b + t0 * z) / 2) 1 t0
+      showRat p.1 ++ "|" ++ showRat p.2.1
+    | _, _, _, _ => "bad-op"
+  | "norm1" :: r =>
+    match kvNat r "n", kvFloat r "pim4", kvFloat r "sqrtpi", kvFloat r "tol" with
+    | some n, some pim4, some sqrtpi, some tol =>
+      match hermRule n pim4 sqrtpi tol with
+      | some p => showPair showFloatBits p
+      | none => "ERR:ValueError"
+    | _, _, _, _ => "bad-op"
+  | "cheb" :: r =>
+    match kvNat r "n", kvFloat r "a", kvFloat r "b" with
+    | some n, some a, some b => showPair showFloatBits (chebRule n a b)
+    | _, _, _ => "bad-op"
+  | "beta" :: r =>
+    match kvNat r "n", kvFloat r "a", kvFloat r "b", kvFloat r "c1", kvFloat r "c2" with
+    | some n, some a, some b, some c1, some c2 =>
+      match jacRule n a b c1 c2 with
+      | some p => showPair showFloatBits p
+      | none => "ERR:ValueError"
+    | _, _, _, _, _ => "bad-op"
+  | "gamma" :: r =>
+    match kvNat r "n", kvFloat r "a", kvFloat r "b", kvFloat r "tol", kvFloat r "factor" with
+    | some n, some a, some b, some tol, some factor =>
+      match lagRule n a b tol factor with
+      | some p => showPair showFloatBits p
+      | none => "ERR:ValueError"
+    | _, _, _, _, _ => "bad-op"
+  | "gammanode" :: r =>
+    match kvNat r "n", kvFloat r "a", kvFloat r "tol", kvFloat r "z0" with
+    | some n, some a, some tol, some z0 =>
+      let (z, pp, p2, its) := lagNode n a tol z0
+      showFloatBits z ++ "|" ++ showFloatBits pp ++ "|" ++ showFloatBits p2 ++ "|" ++ toString its
+    | _, _, _, _ => "bad-op"
+  | _ => "bad-op"
 
 end QE.C08
